@@ -19,6 +19,11 @@ type verifDirSpec struct {
 
 // verifSymDir declares n files with names "<x>.sql" (x a symbolic letter,
 // strictly increasing so names are distinct and sorted) and symbolic contents.
+// verifContentLens: when non-nil, the content length of each file is picked
+// from this list by a choice point (boundary-shift edits need directories whose
+// files differ in length while the byte stream fed to the hash is the same).
+var verifContentLens []int
+
 func verifSymDir(tag string, n, clen int, withIgnore, symNames bool) verifDirSpec {
 	var d verifDirSpec
 	for i := 0; i < n; i++ {
@@ -32,7 +37,11 @@ func verifSymDir(tag string, n, clen int, withIgnore, symNames bool) verifDirSpe
 				verifAssume(d.names[i-1][0] < x[0])
 			}
 		}
-		c := verifString(fmt.Sprintf("%sc%d", tag, i), clen)
+		cl := clen
+		if verifContentLens != nil && i < n-1 {
+			cl = verifContentLens[verifChoice(fmt.Sprintf("%slen%d", tag, i), len(verifContentLens))]
+		}
+		c := verifString(fmt.Sprintf("%sc%d", tag, i), cl)
 		ign := false
 		if withIgnore && verifChoice(fmt.Sprintf("%sign%d", tag, i), 2) == 1 {
 			ign = true
@@ -109,6 +118,13 @@ func verifHashedViewEq(a, b verifDirSpec) bool {
 func verifC06(maxFiles, clen int, withIgnore, strict bool) {
 	n1 := verifChoice("files", maxFiles+1)
 	n2 := verifChoice("files2", maxFiles+1)
+	verifC06Pair(n1, n2, clen, withIgnore, strict)
+}
+
+// verifC06Sized: both directories have exactly n files.
+func verifC06Sized(n, clen int) { verifC06Pair(n, n, clen, false, false) }
+
+func verifC06Pair(n1, n2, clen int, withIgnore, strict bool) {
 	d1 := verifSymDir("a", n1, clen, withIgnore, false)
 	d2 := verifSymDir("b", n2, clen, withIgnore, true)
 	m1 := d1.mem()
@@ -150,6 +166,14 @@ func verifC06(maxFiles, clen int, withIgnore, strict bool) {
 	} else {
 		verifAssert(!same, "validation failed although the directory is unchanged")
 	}
+}
+
+// Boundary shifts: three files, the last one fixed in length, the first two of
+// length 0, 1, 5 or 6 in both directories (a 5-byte content can spell "x.sql").
+func VerifHarness_C06_shift() {
+	verifContentLens = []int{0, 1, 5, 6}
+	defer func() { verifContentLens = nil }()
+	verifC06Sized(3, 1)
 }
 
 func VerifHarness_C06_quick()          { verifC06(3, 4, false, false) }
